@@ -184,7 +184,7 @@ class C13(Check):
         "batch request before the probe / retention with N >= 10 / thread run with >= 2 threads; distinct = distinct spec."
     )
     assumptions = [
-        "methods keep no state of their own (echo / scripted failure)",
+        "methods keep no state of their own (echo / scripted failure); the echo methods consume (empty) their own container arguments after copying them into the result",
         "'memory does not grow' is decided through retained references (weak references to contexts and view instances) and through the count of gc-tracked objects across passes of never-repeating requests (threshold: half an object per request), not by measuring process memory",
         "thread schedules are sampled by the OS, not controlled: part (c) can expose a race, it cannot exclude one",
     ]
@@ -201,8 +201,10 @@ class C13(Check):
         def hist(kind: str):
             reg = stdreg.std_registry(kind)
             doc = docs.document(reg)
-            return st.builds(lambda h, p, b: {'kind': 'history', 'dispatcher': kind, 'history': h, 'probe': p, 'behaviours': b},
-                             st.lists(doc, max_size=maxlen), doc, stdreg.behaviours())
+            # every third history also contains the probe's own text (the same request text served twice by one dispatcher)
+            return st.builds(lambda h, p, b, rep: {'kind': 'history', 'dispatcher': kind, 'history': (h[:rep % (len(h) + 1)] + [p] + h[rep % (len(h) + 1):]) if rep < 4 else h,
+                                                   'probe': p, 'behaviours': b},
+                             st.lists(doc, max_size=maxlen), doc, stdreg.behaviours(), st.integers(0, 11))
 
         def threads(kind: str):
             reg = stdreg.std_registry(kind)
@@ -267,6 +269,9 @@ class C13(Check):
              'probe': t(call('echo', [5, 6]))},
             {'kind': 'history', 'dispatcher': 'async', 'behaviours': {},
              'history': [t(call('v.get', [1])), t(call('with_ctx', [1])), t(call('echo', {'zz': 1}))], 'probe': t(call('v.get', [9]))},
+            {'kind': 'history', 'dispatcher': 'sync', 'behaviours': {}, 'history': [t(call('echo', [[1, 2, 3], {'k': [4]}]))], 'probe': t(call('echo', [[1, 2, 3], {'k': [4]}]))},
+            {'kind': 'history', 'dispatcher': 'async', 'behaviours': {}, 'history': [t([call('v.get', [[1, 2]], 1), call('echo', {'a': {'x': 1}}, 2)])] * 2,
+             'probe': t([call('v.get', [[1, 2]], 1), call('echo', {'a': {'x': 1}}, 2)])},
             {'kind': 'vhistory', 'dispatcher': 'sync', 'coerce': True, 'history': [['pick.int', []], ['pick.float', [2]]], 'probe': ['pick.bool', []]},
             {'kind': 'vhistory', 'dispatcher': 'async', 'coerce': True, 'history': [['pick.bool', []]], 'probe': ['pick.float', []]},
             {'kind': 'vhistory', 'dispatcher': 'sync', 'coerce': False, 'history': [['pick.float', []], ['pick.bool', []]], 'probe': ['pick.int', []]},
